@@ -14,6 +14,7 @@ import (
 	"strings"
 	"sync"
 	"testing"
+	"time"
 
 	"github.com/ava-labs/avalanchego/database"
 	"github.com/ava-labs/avalanchego/database/memdb"
@@ -93,6 +94,9 @@ type c36Op struct {
 	Cert  bool   `json:"cert,omitempty"`
 	Min   int64  `json:"min,omitempty"`
 	Save  []int  `json:"save,omitempty"`
+	// Conc (setMin only, interleaved histories): an operation released on another
+	// goroutine while this SetMin is inside one of its store operations
+	Conc *c36Conc `json:"conc,omitempty"`
 }
 
 func (o c36Op) String() string {
@@ -107,13 +111,16 @@ func (o c36Op) String() string {
 	case "setCert":
 		return fmt.Sprintf("setCert(c%d)", o.Chunk)
 	case "setMin":
+		if o.Conc != nil {
+			return fmt.Sprintf("setMin(%d,save%v)||%s@%s#%d+%dus", o.Min, o.Save, o.Conc.Op, o.Conc.At, o.Conc.Nth, o.Conc.DelayUS)
+		}
 		return fmt.Sprintf("setMin(%d,save%v)", o.Min, o.Save)
 	}
 	return o.Kind
 }
 
 type c36Case struct {
-	DB  string  `json:"db"` // memdb: reopen is observed after every op; pebble: closed and reopened at every restart op
+	DB  string  `json:"db"` // memdb: reopen is observed after every op; pebble: closed and reopened at every restart op; memdb-hooked: interleaved history (c36conc_test.go)
 	Ops []c36Op `json:"ops"`
 }
 
@@ -367,6 +374,7 @@ type c36Result struct {
 	remoteOK     int
 	remoteReject int
 	restarts     int
+	conc         map[string]int // counters of the interleaved histories
 }
 
 func runC36(fx *c36Fixture, c c36Case) (res c36Result) {
@@ -557,13 +565,15 @@ func c36Gen(fx *c36Fixture, rng *rand.Rand, dbKind string) c36Case {
 
 func TestC36(t *testing.T) {
 	r := kit.Start(t, "C36", "fault_enumeration")
-	r.Rule("histories of AddLocalChunkWithCert / VerifyRemoteChunk / SetChunkCert / SetMin(min advance, saving up to 3 pending chunks, expiring others) / restart over a fixed pool of 36 signed chunks (3 producers, expiries 4..105, validity window 40) on the real ChunkStorage + ChunkVerifier. On memdb a second storage (with a fresh verifier, as after a process restart) is opened on the same database after EVERY operation (= every crash/restart point of the history) and compared with the live one; `restart` ops continue the history on the reopened instance. On pebble the database is really closed and reopened at each restart op. Compared: pending set, accepted set, GetChunkBytes of every pool chunk, storage minimum, the expiry interval the verifier admits (probed), per-producer weight measured through CheckRateLimit. One evaluation = one reopen point; non-trivial = a SetMin before the point saved or expired a chunk; distinct = distinct op prefix.")
+	r.Rule("histories of AddLocalChunkWithCert / VerifyRemoteChunk / SetChunkCert / SetMin(min advance, saving up to 3 pending chunks, expiring others) / restart over a fixed pool of 36 signed chunks (3 producers, expiries 4..105, validity window 40) on the real ChunkStorage + ChunkVerifier. On memdb a second storage (with a fresh verifier, as after a process restart) is opened on the same database after EVERY operation (= every crash/restart point of the history) and compared with the live one; `restart` ops continue the history on the reopened instance. On pebble the database is really closed and reopened at each restart op. Compared: pending set, accepted set, GetChunkBytes of every pool chunk, storage minimum, the expiry interval the verifier admits (probed), per-producer weight measured through CheckRateLimit. One evaluation = one reopen point; non-trivial = a SetMin before the point saved or expired a chunk; distinct = distinct op prefix. INTERLEAVED histories (memdb behind a wrapping database that intercepts NewBatch / Batch.Put / Batch.Delete / Batch.Write / return of Write / direct Put, Delete): 1..3 SetMins of a history are interleaved, i.e. at a PRNG-chosen store operation of that SetMin (fallback: its Batch.Write) the wrapper starts a goroutine performing a PRNG-chosen AddLocalChunkWithCert / VerifyRemoteChunk / SetChunkCert of a chunk which that SetMin saves, expires or leaves pending, or of a fresh chunk; the SetMin goroutine yields or waits at most 0.3..2.5 ms (schedule widening only, the operation is never waited for inside the store operation) and carries on; the operation is joined after SetMin returned (deadlock watchdog). At quiescence the in-memory view is compared with a storage reopened on the same database (same observables; keys C36/interleaved-*); the model must explain the results and the live state by one of the two sequential orders (else inconclusive) and continues from that order; further reopen points at restart ops and at the end of the history. The generator tracks every state the history can be in and only emits operations that are inside the assumptions in all of them. STRESS: per case 2..4 phases; in each phase one acceptor goroutine (addLocal of the chunks it is about to save, then SetMin with non-decreasing minimums) and 2..4 adder goroutines (addLocal / setCert of any pool chunk, VerifyRemoteChunk only of chunks owned by that goroutine and directly after handing in the certificate) run their PRNG-generated programs concurrently from a common start; after all returned, live is compared with a reopened storage (keys C36/stress-*); the next phase continues on the live or on the reopened instance. Non-trivial stress phase = something was accepted; distinct = the programs up to that phase.")
 	r.Assume(
 		"certificates are documented as not persisted and are not compared",
 		"SetMin is only asked to save chunks that are pending (a failing SetMin is a failed accept, outside the property)",
 		"VerifyRemoteChunk is not called for a chunk that is pending without certificate (it dereferences the nil certificate; separate defect, see report)",
 		"a restarted process creates a fresh ChunkVerifier; the storage's minimum is what it must be given back",
 		"the plain-map model is only used to predict op results, classify witnesses and decide non-triviality; the verdict is live-vs-reopened equality",
+		"concurrent parts: the verdict is only taken when no call into the storage is in flight; which of the two orders of an interleaved pair took effect is not predicted; only one goroutine calls SetMin (block accept is sequential) so that minimums never decrease",
+		"a ChunkStorage call that never returns after its peer returned (deadlock witness or watchdog) is reported as inconclusive, the statement does not speak about liveness",
 	)
 	fx, err := c36GetFixture()
 	if err != nil {
@@ -571,7 +581,13 @@ func TestC36(t *testing.T) {
 	}
 	judge := func(c c36Case) {
 		var res c36Result
-		r.Guard("ChunkStorage", c, func() { res = runC36(fx, c) })
+		r.Guard("ChunkStorage", c, func() {
+			if c.DB == "memdb-hooked" {
+				res = runC36Conc(fx, c)
+			} else {
+				res = runC36(fx, c)
+			}
+		})
 		r.EvalN(res.reopens)
 		r.Count("reopen_points", res.reopens)
 		r.Count("restarts_continued_on_reopened", res.restarts)
@@ -582,27 +598,71 @@ func TestC36(t *testing.T) {
 		if c.DB == "pebble" {
 			r.Count("pebble_histories", 1)
 		}
+		if c.DB == "memdb-hooked" {
+			r.Count("interleaved/histories", 1)
+			r.Count("interleaved/reopen_points", res.reopens)
+			for k, v := range res.conc {
+				r.Count("interleaved/"+k, v)
+			}
+		}
 		for _, i := range res.nontrivial {
 			r.Distinct(c.shape(i))
 		}
-		if len(res.nontrivial) > 0 {
+		if len(res.nontrivial) > 0 && (c.DB != "memdb-hooked" || r.Counter("interleaved/sampled") < 2) {
+			if c.DB == "memdb-hooked" {
+				r.Count("interleaved/sampled", 1)
+			}
 			r.Sample(c)
 		}
 		if res.divergence != "" {
 			r.Count("model_divergences", 1)
 			r.Inconclusive("model/harness divergence (not a verdict): %s [history %s]", res.divergence, c.shape(len(c.Ops)))
 		}
+		if len(res.fails) > 0 {
+			r.Count("histories_with_reopen_mismatch", 1)
+		}
 		for _, f := range res.fails {
 			w := map[string]any{"case": c, "failed_after_op": res.failAt, "before": res.before, "after": res.after}
 			r.Violation(f.Key, w, "reopen after step %d (%s): %s  [history: %s]", res.failAt, c.Ops[res.failAt], f.Detail, c.shape(res.failAt))
 		}
 	}
+	judgeStress := func(s c36Stress) {
+		var res c36StressResult
+		r.Guard("ChunkStorage", map[string]any{"stress": s}, func() { res = runC36Stress(fx, s) })
+		r.EvalN(res.phases)
+		r.Count("stress/cases", 1)
+		r.Count("stress/quiescent_reopen_points", res.phases)
+		r.Count("stress/goroutines", res.goroutines)
+		r.Count("stress/operations", res.ops)
+		r.Count("stress/remote_chunks_admitted", res.remoteOK)
+		r.Count("stress/remote_chunks_rejected_by_window", res.remoteRej)
+		r.Count("stress/accepted_chunks_at_reopen_points", res.accepted)
+		for _, i := range res.nontrivial {
+			r.Distinct("stress", fmt.Sprint(s.Phases[:i+1]))
+		}
+		if res.divergence != "" {
+			r.Count("model_divergences", 1)
+			r.Inconclusive("stress: %s (not a verdict)", res.divergence)
+		}
+		for _, f := range res.fails {
+			w := map[string]any{"stress": s, "failed_after_phase": res.failAt, "before": res.before, "after": res.after}
+			r.Violation(f.Key, w, "after all goroutines of phase %d returned: %s (schedule dependent; the witness holds the programs)", res.failAt, f.Detail)
+		}
+	}
 	if rf := r.Replay(); rf != nil && len(rf.Witness) > 0 {
 		var w struct {
-			Case c36Case `json:"case"`
+			Case   c36Case   `json:"case"`
+			Stress c36Stress `json:"stress"`
 		}
 		if err := json.Unmarshal(rf.Witness, &w); err == nil && len(w.Case.Ops) > 0 {
 			judge(w.Case)
+			r.Finish(0)
+			return
+		} else if err == nil && len(w.Stress.Phases) > 0 {
+			// the schedule is not part of the witness: repeat the programs
+			for i := 0; i < 200 && r.Violations() == 0; i++ {
+				judgeStress(w.Stress)
+			}
 			r.Finish(0)
 			return
 		}
@@ -617,8 +677,40 @@ func TestC36(t *testing.T) {
 	for i := 0; i < nPeb; i++ {
 		cases = append(cases, c36Gen(fx, rng, "pebble"))
 	}
+	// interleaved histories and stress programs are generated up front (PRNG
+	// order independent of scheduling)
+	rngI := r.Rand("interleaved")
+	nInt := r.N(1500, 15000)
+	inter := make([]c36Case, 0, nInt)
+	for i := 0; i < nInt; i++ {
+		inter = append(inter, c36GenConc(fx, rngI))
+	}
+	rngS := r.Rand("stress")
+	nStress := r.N(300, 2000)
+	stress := make([]c36Stress, 0, nStress)
+	for i := 0; i < nStress; i++ {
+		stress = append(stress, c36GenStress(fx, rngS))
+	}
+	t0 := time.Now()
+	parts := map[string]float64{}
 	vfParallel(len(cases), 4, func(i int) {
 		judge(cases[i])
 	})
+	parts["sequential"] = time.Since(t0).Seconds()
+	t0 = time.Now()
+	// the workers mostly sleep in the schedule-widening delay
+	vfParallel(len(inter), 8, func(i int) {
+		judge(inter[i])
+	})
+	parts["interleaved"] = time.Since(t0).Seconds()
+	t0 = time.Now()
+	vfParallel(len(stress), 2, func(i int) {
+		judgeStress(stress[i])
+	})
+	parts["stress"] = time.Since(t0).Seconds()
+	r.Extra("part_wall_s", parts) // bookkeeping only, no verdict depends on it
+	if r.Counter("interleaved/interleaved_setmins") == 0 || r.Counter("stress/quiescent_reopen_points") == 0 {
+		r.Inconclusive("the concurrent parts did not run")
+	}
 	r.Finish(1000)
 }
